@@ -77,6 +77,13 @@ def gen_vparse(tier, rng):
     for n in [MAX - 1, MAX, MAX + 1, U64 - 1, U64, U64 + 1, 10 ** 20, 10 ** 30, int('9' * 40)]:
         for pat in ['%d.2.3', '1.%d.3', '1.2.%d', '1.2.3-%d', '1.2.3+%d', '1.2.3-a.%d', 'v %d.2.3', '1.2.%d-rc', '\n1.%d.3', '1.2.3\n.%d']:
             add(pat % n); add(pat % n + ' ')
+    # zero-padded components of every length up to 45 digits (the value, not the digit count, decides), at each position
+    for z in list(range(0, 8)) + [13, 14, 15, 16, 17, 18, 19, 20, 21, 25, 30, 40]:
+        for n in [0, 7, 1234, MAX - 1, MAX, MAX + 1, U64 - 1, U64]:
+            d = '0' * z + str(n)
+            if len(d) > 45: continue
+            for pat in ['%s.2.3', '1.%s.3', '1.2.%s', '1.2.3-%s', '1.2.3-a.%s', '1.2.3+%s']:
+                add(pat % d)
     # multi-line / multi-byte rejected inputs for the error reports
     for s in ['1.2\n.3', '\n\n1.2.x', 'a\nb\nc', '1.2.3\n', 'é\n1.2', '1.2.é', '1.\U0001F600.3', '\t\n 1.2.3', '1.2.3-é', 'x\r\ny', '1.2.3\n\n\n-']:
         add(s)
